@@ -472,7 +472,7 @@ func (e *Enc) applyContractSig(cur *cursor, v ssa.Value, name string, callee *ss
 		if ct.HasMod {
 			e.frameHavoc(cur, callee, sig, ct, args, pre, eff)
 		} else {
-			if len(ct.Updates) > 0 {
+			if ct.HasUpd {
 				// ghost effects are exactly the `updates` clause
 				e2 := newEffects()
 				e2.add(eff)
@@ -933,7 +933,7 @@ func (m *Model) verifyFunc(name string, ct *Contract) (*Enc, error) {
 		}
 		if ct.HasMod {
 			e.frameObligations(fc, r, k)
-		} else if len(ct.Updates) > 0 {
+		} else if ct.HasUpd {
 			e.ghostFrameObligations(fc, r, k)
 		}
 	}
